@@ -383,17 +383,14 @@ func runDiff(r *vf.Run, groupMode bool) {
 			if q.e.HasOperator() || len(q.gb) > 0 {
 				r.Distinct(fmt.Sprintf("%s|%s|%d|%d", id, q.e.Shape(), len(q.gb), q.e.Nodes()))
 			}
-			if q.id == "q0" && len(ds.ColNames()) > 0 {
-				// one query OBJECT reused for many values (a caller looping over the values of a column): every execution
-				// must answer the expression as it is at that moment
-				rid := id + "/reused-object"
-				if r.Want(rid) {
-					reusedObjectLoop(r, rid, rng, ds, matrix, groupMode)
-				}
-			}
 			if q.id == "q1" && len(ds.Rows) >= 100 {
 				r.Sample("query", map[string]any{"dataset": id, "rows": len(ds.Rows), "specs": specStrings(ds), "expr": q.e.String(), "group_by": fmt.Sprintf("%q", q.gb), "expected_count": want.Count, "expected_groups": len(want.Groups), "expected_error": want.Err})
 			}
+		}
+		// one query OBJECT reused for many values (a caller looping over the values of a column): every execution must
+		// answer the expression as it is at that moment
+		if rid := id + "/reused-object"; r.Want(rid) && len(ds.ColNames()) > 0 {
+			reusedObjectLoop(r, rid, r.RNG(rid), ds, matrix, groupMode)
 		}
 	})
 }
